@@ -1,7 +1,7 @@
 (* C09 — the revocation status list is a faithful state machine of issue/revoke history.
    Property theorems only; every proof is `exact <lemma>`. *)
 From Coq Require Import List ZArith Bool.
-From AV Require Import Model.Sexp Model.RevList Model.CaseC09 Proofs.RevListProofs Proofs.C09Transfer.
+From AV Require Import Model.Sexp Model.RevList Model.CaseC09 Proofs.RevListProofs Proofs.C09Extra Proofs.C09Transfer.
 Import ListNotations.
 Open Scope Z_scope.
 
@@ -38,6 +38,31 @@ Proof. exact issue_embeds_acc. Qed.
 Theorem C09_issue_refused_iff : forall s i, issue_acc s i = None <-> ~ (1 <= i < lenZ (bits s)).
 Proof. exact issue_refused_iff. Qed.
 
+(* the registry keeps its size through every history (indices outside it never create entries) *)
+Theorem C09_size_preserved : forall s h, lenZ (bits (rsl_run s h)) = lenZ (bits s).
+Proof. exact run_len. Qed.
+(* a request whose indices are all already in the requested state, or outside the registry, is
+   ignored altogether: entries and accumulator stay, the timestamp moves only if one is supplied *)
+Theorem C09_noop_update_ignored : forall s iss rev t, noop_request s iss rev ->
+  bits (rsl_update s iss rev t) = bits s /\
+  (forall x, acc (rsl_update s iss rev t) x = acc s x) /\
+  ts (rsl_update s iss rev t) = match t with Some x => Some x | None => ts s end.
+Proof. exact noop_update_ignored. Qed.
+(* the issued / revoked requests act as sets: order and repetition inside a request do not matter *)
+Theorem C09_requests_are_sets : forall s iss rev iss' rev' t t',
+  (forall i, In i iss <-> In i iss') -> (forall i, In i rev <-> In i rev') ->
+  bits (rsl_update s iss rev t) = bits (rsl_update s iss' rev' t').
+Proof. exact update_bits_sets. Qed.
+Theorem C09_requests_are_sets_acc : forall s iss rev iss' rev' t t' (off : G),
+  (forall x, acc s x = acc_of_bits (bits s) x + off x) ->
+  (forall i, In i iss <-> In i iss') -> (forall i, In i rev <-> In i rev') ->
+  forall x, acc (rsl_update s iss rev t) x = acc (rsl_update s iss' rev' t') x.
+Proof. exact update_acc_sets. Qed.
+Theorem C09_noop_nonvacuous :
+  let s := rsl_update (rsl_create 4 false None) [2] [] None in
+  noop_request s [2; 9; 2] [1; 9] /\ bits s = [true; true; false; true].
+Proof. exact noop_request_inhabited. Qed.
+
 (* transfer *)
 Theorem C09_transfer : forall n bd t0 init steps, ok_C09 n bd t0 init steps = true ->
   exists b t c f obs, init = RState b t c f /\ bits (rsl_create n bd t0) = b /\ ts (rsl_create n bd t0) = t /\
@@ -70,3 +95,8 @@ Print Assumptions C09_transfer.
 Print Assumptions C09_transfer_update.
 Print Assumptions C09_transfer_issue.
 Print Assumptions C09_transfer_classes.
+Print Assumptions C09_size_preserved.
+Print Assumptions C09_noop_update_ignored.
+Print Assumptions C09_requests_are_sets.
+Print Assumptions C09_requests_are_sets_acc.
+Print Assumptions C09_noop_nonvacuous.
